@@ -37,6 +37,7 @@ import M4riProofs.TrsmRec
 import M4riProofs.Top
 import M4riProofs.GenTie
 import M4riProofs.GenTieAlg
+import M4riProofs.GenTieSlice
 namespace M4ri.Props.C03
 open M4ri M4ri.BMat
 
@@ -148,5 +149,12 @@ theorem pluq_end_to_end (L1 L2 L3 : Nat) {A : BMat} (hA : A.WF) :
 
 /-! ### tie to the C text (generated by vlib/ctrans.py on every check, proved equal to the model in GenTieAlg.lean) -/
 #check @M4ri.GenTieAlg.mzdFindPivot_eq
+
+
+/-! ### tie to the C text: loops cut out of larger C functions (generated by vlib/ctrans.py on every check, proved equal to the
+    model in GenTieSlice.lean) -/
+#check @M4ri.GenTieSlice.plePermInit_eq
+#check @M4ri.GenTieSlice.plePermUpdate_eq
+#check @M4ri.GenTieSlice.plePermUpdate_model
 
 end M4ri.Props.C03
